@@ -222,11 +222,38 @@ pub struct PairStats {
     pub n2_hits: u64,
 }
 
+fn next_up64(x: f64) -> f64 {
+    if x == 0.0 {
+        return f64::from_bits(1);
+    }
+    let b = x.to_bits();
+    f64::from_bits(if x > 0.0 { b + 1 } else { b - 1 })
+}
+
+fn next_up32(x: f64) -> f64 {
+    let x = x as f32;
+    if x == 0.0 {
+        return f32::from_bits(1) as f64;
+    }
+    let b = x.to_bits();
+    f32::from_bits(if x > 0.0 { b + 1 } else { b - 1 }) as f64
+}
+
+/// if p has the shape of a division point moved by divide_segment's corner case 1 on segment `seg` (x one ulp right of the
+/// segment's left x, y below the left endpoint) return the point before the move
+fn unbump(p: P, seg: Seg, f32mode: bool) -> Option<P> {
+    let up = if f32mode { next_up32(seg.0.x) } else { next_up64(seg.0.x) };
+    if p.x == up && p.y < seg.0.y {
+        Some(pt(seg.0.x, p.y))
+    } else {
+        None
+    }
+}
+
 /// the N2 shape: the two split points have equal y and x one ulp apart, and the smaller x is the x of the left
 /// endpoint of the segment whose point was bumped, with y below that left endpoint
 fn n2_shape(p_small: P, p_big: P, bumped_seg: Seg, f32mode: bool) -> bool {
-    let one_ulp = if f32mode { (p_big.x - p_small.x) == ulp32(p_small.x) || p_big.x as f32 == f32::from_bits((p_small.x as f32).to_bits().wrapping_add(1)) } else { p_big.x == f64::from_bits(if p_small.x >= 0.0 { p_small.x.to_bits() + 1 } else { p_small.x.to_bits() - 1 }) || (p_small.x == 0.0 && p_big.x == f64::from_bits(1)) };
-    p_small.y == p_big.y && one_ulp && p_small.x == bumped_seg.0.x && p_small.y < bumped_seg.0.y
+    unbump(p_big, bumped_seg, f32mode) == Some(p_small)
 }
 
 pub fn check_pair(d: &SegPair, obs: &mut Obs) -> Result<(), Failure> {
@@ -257,6 +284,14 @@ pub fn check_pair(d: &SegPair, obs: &mut Obs) -> Result<(), Failure> {
     let ctx = format!("segments {:?} / {:?} operands {:?} in_out {:?} ({}{})", s1, s2, d.subj, d.in_out, if d.integer { "integer" } else { "float" }, if d.f32 { ", f32" } else { "" });
     let fail = |clause: &str, why: String, o: &PairOutcome| Failure::new(clause, format!("{}: {}; {}", ctx, why, describe(o)));
     for (dir, o, (sa, sb), (ea, eb)) in [("(se1,se2)", &fwd, (s1, s2), (&exp1, &exp2)), ("(se2,se1)", &rev, (s2, s1), (&exp2, &exp1))] {
+        if !d.integer && o.ret >= 2 && class != Class::Overlap {
+            // recorded finding N3: the float computation takes segments that are collinear only within rounding for
+            // collinear ones; the overlap arm then cuts at points that need not lie on the segments (zero-length
+            // pieces are possible). Counted, not reported; any anomaly of the point arm (return 1) is still reported.
+            obs.count("known_signature_hits_N3", 1);
+            obs.class("N3-overlap-arm-on-non-collinear-floats");
+            continue;
+        }
         if let Err(why) = &o.flags_ok {
             return Err(fail("links-and-flags", format!("{} {}", dir, why), o));
         }
@@ -265,11 +300,26 @@ pub fn check_pair(d: &SegPair, obs: &mut Obs) -> Result<(), Failure> {
         }
         let (g1, g2) = (split_points(&o.pieces[0], sa), split_points(&o.pieces[1], sb));
         // containment: every split point inside the bounding boxes of both segments
-        for p in g1.iter().chain(g2.iter()) {
+        for (p, own) in g1.iter().map(|p| (p, sa)).chain(g2.iter().map(|p| (p, sb))) {
+            if o.ret >= 2 {
+                // overlap arm (taken by the float computation also for segments that are collinear only within rounding):
+                // the cut points are the other segment's endpoints, bit for bit
+                let other = if own == sa { sb } else { sa };
+                if *p != other.0 && *p != other.1 {
+                    return Err(fail("overlap-cut-points", format!("{} cut point ({},{}) of the overlap arm is not an endpoint of the other segment", dir, p.x, p.y), o));
+                }
+                continue;
+            }
             let mut ok = in_box(sa, *p) && in_box(sb, *p);
-            if !ok && g1.len() == 1 && g2.len() == 1 && g1[0] != g2[0] {
-                // N2 moves one of the two points one ulp to the right, possibly out of the other's box
-                ok = true;
+            if !ok {
+                // N2: corner case 1 moved this division point one ulp to the right, possibly out of the other's box
+                if let Some(q) = unbump(*p, own, d.f32) {
+                    if in_box(sa, q) && in_box(sb, q) {
+                        ok = true;
+                        obs.count("known_signature_hits_N2", 1);
+                        obs.class("N2-corner-case-1-bump");
+                    }
+                }
             }
             if !ok {
                 return Err(fail("split-point-outside-bounding-box", format!("{} split point ({},{})", dir, p.x, p.y), o));
@@ -488,16 +538,21 @@ fn ipt(range: i64) -> BoxedStrategy<(i64, i64)> {
 
 /// integer pairs drawn by case class
 pub fn integer_strategy() -> BoxedStrategy<SegPair> {
-    let range = prop_oneof![3 => Just(6i64), 2 => Just(1000i64), 2 => Just((1i64 << 25) - 1)];
+    integer_strategy_lim((1i64 << 25) - 1, false)
+}
+
+/// integer pairs with |coordinate| <= lim; `single`: to be run in f32 (lim must then keep every product exact in f32)
+pub fn integer_strategy_lim(lim: i64, single: bool) -> BoxedStrategy<SegPair> {
+    let range = prop_oneof![3 => Just(6i64.min(lim)), 2 => Just(1000i64.min(lim)), 2 => Just(lim)];
+    let dl = 1000i64.min(lim);
     let dirs = prop_oneof![
         4 => (-6i64..=6, -6i64..=6),
         1 => Just((0i64, 1i64)),
         1 => Just((1i64, 0i64)),
-        1 => (-1000i64..=1000, -1000i64..=1000),
+        1 => (-dl..=dl, -dl..=dl),
     ];
     let flags = (any::<bool>(), any::<bool>(), any::<bool>(), any::<bool>());
     let f = |p: (i64, i64)| (p.0 as f64, p.1 as f64);
-    let lim = (1i64 << 25) - 1;
     let clampp = move |p: (i64, i64)| (p.0.clamp(-lim, lim), p.1.clamp(-lim, lim));
     range
         .prop_flat_map(move |r| {
@@ -520,10 +575,18 @@ pub fn integer_strategy() -> BoxedStrategy<SegPair> {
                 let p = |t: i64| (a.0 + t * v.0, a.1 + t * v.1);
                 (p(i), p(j), p(k), p(l))
             }).boxed();
-            prop_oneof![3 => random, 2 => common, 3 => tee, 4 => col]
+            // long, almost parallel segments crossing properly at a lattice point: P - i*u .. P + j*u and P - k*v .. P + m*v
+            // with u = (l, d), v = u + (e1, e2) for tiny (e1, e2)
+            let big = (lim / 8).max(2);
+            let npar = (ipt(r.min(lim / 2)), 1i64..=big, -3i64..=3, -2i64..=2, -2i64..=2, (1i64..4, 1i64..4, 1i64..4, 1i64..4), any::<bool>()).prop_map(|(p, l, d, e1, e2, (i, j, k, m), tr)| {
+                let (u, v) = ((l, d), (l + e1, d + e2));
+                let t = |q: (i64, i64)| if tr { (q.1, q.0) } else { q };
+                (t((p.0 - i * u.0, p.1 - i * u.1)), t((p.0 + j * u.0, p.1 + j * u.1)), t((p.0 - k * v.0, p.1 - k * v.1)), t((p.0 + m * v.0, p.1 + m * v.1)))
+            }).boxed();
+            prop_oneof![3 => random, 2 => common, 3 => tee, 4 => col, 2 => npar]
         })
         .prop_flat_map(move |(a, b, c, d)| (Just((clampp(a), clampp(b), clampp(c), clampp(d))), flags.clone()))
-        .prop_map(move |((a, b, c, d), fl)| SegPair { s1: (f(a), f(b)), s2: (f(c), f(d)), subj: (fl.0, fl.1), in_out: (fl.2, fl.3), f32: false, integer: true })
+        .prop_map(move |((a, b, c, d), fl)| SegPair { s1: (f(a), f(b)), s2: (f(c), f(d)), subj: (fl.0, fl.1), in_out: (fl.2, fl.3), f32: single, integer: true })
         .boxed()
 }
 
